@@ -178,6 +178,7 @@ def specCheck (line : String) : String :=
       match parseTab ts with
       | none => "fail bad-request"
       | some t =>
+        if t.n > 8 then "skip" else   -- exact vectors have 2^n entries
         match stateOf t with
         | none => "skip"   -- rows do not describe a stabilizer state (non-commuting / dependent)
         | some ψ =>
@@ -197,7 +198,8 @@ def specCheck (line : String) : String :=
             | _, _ => "fail bad-request"
           | "norm", [] =>
             match resTab with
-            | some t' => if stabilizesB t' ψ then "ok" else "fail norm-changes-state"
+            | some t' => if !stabilizesB t' ψ then "fail norm-changes-state"
+                         else if !rrefB t' then "fail norm-result-not-canonical" else "ok"
             | none => "fail norm-did-not-return"
           | "gate", name :: bits =>
             match nats? bits with
@@ -207,14 +209,15 @@ def specCheck (line : String) : String :=
                 | none => "skip"
                 | some ψ' =>
                   match resTab with
-                  | some t' => if stabilizesB t' ψ' then "ok" else "fail gate-result-not-stabilizing"
+                  | some t' => if !stabilizesB t' ψ' then "fail gate-result-not-stabilizing"
+                               else if !rrefB t' then "fail gate-result-not-canonical" else "ok"
                   | none => "fail gate-did-not-return"
               else "skip"
             | none => "fail bad-request"
           | "measure", [q] =>
             match q.toNat? with
             | some q =>
-              if q < n then
+              if q < n && rrefB t then
                 match measKind n q ψ, aw with
                 | .certain b, ["det", v] => if bool? v == some b then "ok" else "fail measure-wrong-value"
                 | .fair, ["rnd", _] => "ok"
@@ -226,16 +229,17 @@ def specCheck (line : String) : String :=
           | "collapse", [i, q, v] =>
             match i.toNat?, q.toNat?, bool? v with
             | some i, some q, some v =>
-              if q < n && measKind n q ψ == .fair && lastXRow t q == some i then
+              if q < n && rrefB t && measKind n q ψ == .fair && lastXRow t q == some i then
                 match resTab with
-                | some t' => if stabilizesB t' (proj n q v ψ) then "ok" else "fail collapse-result-not-stabilizing"
+                | some t' => if !stabilizesB t' (proj n q v ψ) then "fail collapse-result-not-stabilizing"
+                             else if !rrefB t' then "fail collapse-result-not-canonical" else "ok"
                 | none => "fail collapse-did-not-return"
               else "skip"
             | _, _, _ => "fail bad-request"
           | "reset", [q] =>
             match q.toNat? with
             | some q =>
-              if q < n then
+              if q < n && rrefB t then
                 match resTab with
                 | none => "fail reset-did-not-return"
                 | some t' =>
@@ -254,6 +258,7 @@ def specCheck (line : String) : String :=
             | none => "fail bad-request"
           | "words", [] => "skip"
           | "peekall", [] =>
+            if !rrefB t then "skip" else
             match aw with
             | "obs" :: ws =>
               match nats? ws with
@@ -264,6 +269,7 @@ def specCheck (line : String) : String :=
               | none => "fail unparsable-answer"
             | _ => "fail peekall-did-not-return"
           | "smeasure", [q] =>
+            if !rrefB t then "skip" else
             match q.toNat?, aw with
             | some q, [o, ts'] =>
               match bool? o, parseTab ts' with
